@@ -60,6 +60,10 @@ type GroupPlan struct {
 	RevokeWork time.Duration
 	// HB848 is the broker-dictated KIP-848 heartbeat interval in ms (0 = kfake's default of 5 s).
 	HB848 int
+	// NoTraffic switches the background producer off: with no prefill and no append steps the
+	// topics stay empty, members never consume anything and never have anything to commit (an
+	// idle group, a common state that takes different client paths at a revocation).
+	NoTraffic bool
 }
 
 // GroupFocus narrows GenGroupPlanF to a denser sub-domain of the same plan space.
@@ -98,6 +102,9 @@ func GenGroupPlanF(t *rapid.T, f GroupFocus) GroupPlan {
 	if f.CoopMulti {
 		scarce, nt, maxParts = false, rapid.IntRange(2, 3).Draw(t, "ntopics-multi"), 6
 	}
+	if f.CoopIdle {
+		scarce, nt, maxParts = false, rapid.IntRange(1, 2).Draw(t, "ntopics-idle"), 8
+	}
 	for i := 0; i < nt; i++ {
 		p.Topics = append(p.Topics, fmt.Sprintf("g%d", i))
 		p.Parts = append(p.Parts, int32(rapid.IntRange(1, maxParts).Draw(t, "parts")))
@@ -107,6 +114,9 @@ func GenGroupPlanF(t *rapid.T, f GroupFocus) GroupPlan {
 	p.Slots = rapid.IntRange(1, 5).Draw(t, "slots")
 	if scarce && p.Slots < 3 {
 		p.Slots = 3
+	}
+	if f.CoopIdle {
+		p.Slots = rapid.IntRange(3, 5).Draw(t, "slots-idle")
 	}
 	for s := 0; s < p.Slots; s++ {
 		var ts []int
@@ -118,8 +128,10 @@ func GenGroupPlanF(t *rapid.T, f GroupFocus) GroupPlan {
 		p.InitTopics = append(p.InitTopics, ts)
 	}
 	p.Prefill = rapid.IntRange(0, 10).Draw(t, "prefill")
+	p.NoTraffic = rapid.IntRange(0, 5).Draw(t, "notraffic") == 0
 	if f.CoopIdle {
 		p.Prefill = 0
+		p.NoTraffic = rapid.IntRange(0, 3).Draw(t, "notraffic-idle") != 0
 	}
 	p.AutoCommit = rapid.SampledFrom([]time.Duration{200 * time.Millisecond, time.Second, 5 * time.Second}).Draw(t, "autocommit")
 	p.PollMax = rapid.SampledFrom([]int{0, 0, 1, 3}).Draw(t, "pollmax")
@@ -153,6 +165,20 @@ func GenGroupPlanF(t *rapid.T, f GroupFocus) GroupPlan {
 		}
 		p.Steps = append(p.Steps, s)
 	}
+	if f.CoopIdle {
+		// every member joins on its own, far enough apart for the previous rebalance to finish:
+		// the first member is then asked to give partitions up several times in a row without
+		// ever gaining one in between; a few of the generated steps follow
+		var joins []GroupStep
+		for slot := 0; slot < p.Slots; slot++ {
+			joins = append(joins, GroupStep{Kind: "join", Slot: slot, Delay: rapid.SampledFrom([]time.Duration{300 * time.Millisecond, 2 * time.Second, 8 * time.Second, 20 * time.Second}).Draw(t, "joingap")})
+		}
+		keep := rapid.IntRange(0, 3).Draw(t, "extrasteps")
+		if keep > len(p.Steps) {
+			keep = len(p.Steps)
+		}
+		p.Steps = append(joins, p.Steps[:keep]...)
+	}
 	p.RevokeWork = rapid.SampledFrom([]time.Duration{0, 0, 50 * time.Millisecond, 700 * time.Millisecond, 3 * time.Second}).Draw(t, "revokework")
 	p.HB848 = rapid.SampledFrom([]int{0, 100, 300}).Draw(t, "hb848")
 	if f.SlowRevoke {
@@ -164,7 +190,7 @@ func GenGroupPlanF(t *rapid.T, f GroupFocus) GroupPlan {
 
 func (p GroupPlan) Brief() string {
 	var b strings.Builder
-	fmt.Fprintf(&b, "brokers=%d proto=%s topics=%v parts=%v late=%v regex=%v slots=%d init=%v prefill=%d autocommit=%v pollmax=%d pollevery=%v revokework=%v hb848=%d steps:", p.Brokers, p.Protocol, p.Topics, p.Parts, p.Late, p.Regex, p.Slots, p.InitTopics, p.Prefill, p.AutoCommit, p.PollMax, p.PollEvery, p.RevokeWork, p.HB848)
+	fmt.Fprintf(&b, "brokers=%d proto=%s topics=%v parts=%v late=%v regex=%v slots=%d init=%v prefill=%d autocommit=%v pollmax=%d pollevery=%v revokework=%v hb848=%d notraffic=%v steps:", p.Brokers, p.Protocol, p.Topics, p.Parts, p.Late, p.Regex, p.Slots, p.InitTopics, p.Prefill, p.AutoCommit, p.PollMax, p.PollEvery, p.RevokeWork, p.HB848, p.NoTraffic)
 	for i, s := range p.Steps {
 		fmt.Fprintf(&b, " [%d +%v %s", i, s.Delay, s.Kind)
 		switch s.Kind {
@@ -552,6 +578,10 @@ func RunGroup(e *bubble.Env, p GroupPlan) *GroupObs {
 	unlock := func() { <-pmu }
 	e.Go(func() {
 		defer close(trafficDone)
+		if p.NoTraffic {
+			<-stopTraffic
+			return
+		}
 		for i := 0; ; i++ {
 			select {
 			case <-stopTraffic:
